@@ -101,7 +101,7 @@ pub fn run() -> i32 {
     let mut r = Report::new("C04");
     let segs = segment_universe(r.thorough());
     let ops = all_ops();
-    r.rule = format!("one-segment words over {} segments ({}) x {} rules: `[] > [±F]` (52), `[±F] > [tone:7]` probes (52), `[±node]` set/probe for lab/cor/dor/phr/place (19), 7 outputs that must be errors, `[αF] > [αG]` and `[αF] > [-αG]` for all 26x26 pairs (1352); each result compared structurally with a bit-level reference model; plus `[αF, ±G] > [-αF]` for 9x8x2 feature pairs on every word of <= 3 segments over p,b,t,a,m without long segments (the alpha must be bound afresh at every position); plus, for every feature, `t > [tone:7] / [±αF] _ [±αF]`, `[±αF] > [tone:7] / _ t [±αF]` and the exception form on /x t y/ for x, y over ~35 segments incl. ones lacking each place sub-node (an undefined feature matches neither α nor -α). Non-trivial = the model predicts a change or a firing probe.", segs.len(), if r.thorough() { "365 bases + every distinct base+one-diacritic bundle the parser accepts" } else { "the 365 base phones" }, ops.len());
+    r.rule = format!("one-segment words over {} segments ({}) x {} rules: `[] > [±F]` (52), `[±F] > [tone:7]` probes (52), `[±node]` set/probe for lab/cor/dor/phr/place (19), 7 outputs that must be errors, `[αF] > [αG]` and `[αF] > [-αG]` for all 26x26 pairs (1352); each result compared structurally with a bit-level reference model; plus `[αF, ±G] > [-αF]` for 9x8x2 feature pairs on every word of <= 3 segments over p,b,t,a,m without long segments (the alpha must be bound afresh at every position); plus, for every feature, `t > [tone:7] / [±αF] _ [±αF]`, `[±αF] > [tone:7] / _ t [±αF]` the exception form, and the forms in which the context (or the input) binds the alpha and the exception uses it, on /x t y/ for x, y over ~35 segments incl. ones lacking each place sub-node (an undefined feature matches neither α nor -α). Non-trivial = the model predicts a change or a firing probe.", segs.len(), if r.thorough() { "365 bases + every distinct base+one-diacritic bundle the parser accepts" } else { "the 365 base phones" }, ops.len());
     r.assumptions.push("reference model: harness/src/model.rs, written from the Segment/Place rustdoc and doc.md §Distinctive Features".into());
     struct Acc { evals: u64, nontrivial: u64, viols: Vec<Viol>, states: std::collections::BTreeSet<u64>, fired: u64 }
     let mut tot = Acc { evals: 0, nontrivial: 0, viols: vec![], states: Default::default(), fired: 0 };
@@ -159,19 +159,21 @@ pub fn run() -> i32 {
     let pick: Vec<SegBits> = { let mut v: Vec<SegBits> = ["p", "t", "k", "s", "ʃ", "f", "u", "i", "a", "o", "h", "ʔ", "ħ", "m", "ŋ", "l", "w", "q", "c", "b"].iter().map(|t| seg(t)).collect(); v.extend(segs.iter().step_by(23).map(|x| x.1)); v.sort(); v.dedup(); v };
     let tt = seg("t");
     let mut forms: Vec<(usize, bool, bool, u8)> = vec![];
-    for f in 0..26 { for i1 in [false, true] { for i2 in [false, true] { for form in 0..3u8 { forms.push((f, i1, i2, form)); } } } }
+    for f in 0..26 { for i1 in [false, true] { for i2 in [false, true] { for form in 0..5u8 { forms.push((f, i1, i2, form)); } } } }
     let mut t3 = Acc { evals: 0, nontrivial: 0, viols: vec![], states: Default::default(), fired: 0 };
     par_fold(forms.len(), 2, || Acc { evals: 0, nontrivial: 0, viols: vec![], states: Default::default(), fired: 0 }, |i, a| {
         let (f, i1, i2, form) = forms[i];
         let m = |inv: bool| format!("[{}α{}]", if inv { "-" } else { "" }, FEATS[f].0);
-        let text = match form { 0 => format!("t > [tone:7] / {} _ {}", m(i1), m(i2)), 1 => format!("{} > [tone:7] / _ t {}", m(i1), m(i2)), _ => format!("t > [tone:7] | {} _ {}", m(i1), m(i2)) };
+        // forms 3 and 4: the alpha is bound by the context (form 4: by the input) and used again in the exception
+        let text = match form { 0 => format!("t > [tone:7] / {} _ {}", m(i1), m(i2)), 1 => format!("{} > [tone:7] / _ t {}", m(i1), m(i2)), 2 => format!("t > [tone:7] | {} _ {}", m(i1), m(i2)),
+            3 => format!("t > [tone:7] / {} _ | _ {}", m(i1), m(i2)), _ => format!("{} > [tone:7] / _ t | _ t {}", m(i1), m(i2)) };
         let Out::Ok(Ok(compiled)) = guarded(5_000_000, || av::compile(&[group(&[&text])])) else { a.viols.push(Viol { key: format!("compile|{}", text), desc: format!("`{}` does not compile", text), case: json!({"rule": text}) }); return; };
         for x in &pick { for y in &pick {
             if *x == tt || *y == tt { continue; }
             let w: CW = vec![CSyl { segs: vec![*x, tt, *y], stress: 0, tone: 0 }];
             // first use binds alpha (to the value, or its inverse for `-α`) if the feature is defined; second use compares
             let agree = match (model::feat(*x, f), model::feat(*y, f)) { (Some(fx), Some(fy)) => { let alpha = fx ^ i1; fy == (alpha ^ i2) } _ => false };
-            let fires = if form == 2 { !agree } else { agree };
+            let fires = match form { 2 => !agree, 3 | 4 => model::feat(*x, f).is_some() && !agree, _ => agree };
             let mut e = w.clone(); if fires { e[0].tone = 7; }
             a.evals += 1;
             match guarded(200_000, || av::apply_group(&compiled, 0, word_of(&w)).map(|x| cw_of(&x))) {
@@ -182,7 +184,7 @@ pub fn run() -> i32 {
             }
         } }
     }, |a| { t3.evals += a.evals; t3.nontrivial += a.nontrivial; t3.viols.extend(a.viols); t3.states.extend(a.states); });
-    r.boxes.push(json!({"box": "alpha bound at one position, used plain / inverted at a later one (context-context, input-context, exception)", "rules": forms.len(), "outer_segments": pick.len(), "cases": t3.evals, "model_predicts_firing": t3.nontrivial}));
+    r.boxes.push(json!({"box": "alpha bound at one position, used plain / inverted at a later one (context-context, input-context, exception, context-then-exception, input-then-exception)", "rules": forms.len(), "outer_segments": pick.len(), "cases": t3.evals, "model_predicts_firing": t3.nontrivial}));
     r.guard(t3.nontrivial > 10_000, "box 3: more than 10k cases fire");
     tot.evals += t3.evals; tot.nontrivial += t3.nontrivial; tot.viols.extend(t3.viols); tot.states.extend(t3.states);
     r.evaluations = tot.evals; r.transitions = tot.evals; r.validated = tot.evals; r.nontrivial = tot.nontrivial;
